@@ -386,6 +386,7 @@ func c12SkipLoops(c *Ctx, p *core.Prog) {
 		inState := map[*ssa.BasicBlock]int{fn.Blocks[0]: stE | stNoPk}
 		atAdvance := map[ssa.Instruction]int{}
 		atLoad := map[ssa.Value]int{} // state at each load of the cursor (a snapshot the code may compare with later)
+		endState := map[*ssa.BasicBlock]int{}
 		for changed := true; changed; {
 			changed = false
 			for _, b := range fn.Blocks {
@@ -411,11 +412,36 @@ func c12SkipLoops(c *Ctx, p *core.Prog) {
 						}
 					}
 				}
+				endState[b] = st
 				var t tokTest
 				snapSucc, snapState := -1, 0
+				// `a && b` used as a value (a case of a tagless switch, a condition kept in a variable) arrives as a phi
+				// that is false on the edge where a failed and b on the edge from the block that evaluated b: on the
+				// true side the run came through that block, so its end state is the one to continue from
+				andBase := 0
+				var condV ssa.Value
 				if len(b.Instrs) > 0 {
 					if iff, ok := b.Instrs[len(b.Instrs)-1].(*ssa.If); ok {
-						t = classify(iff.Cond)
+						condV = iff.Cond
+						if ph, ok := iff.Cond.(*ssa.Phi); ok && ph.Block() == b {
+							var only ssa.Value
+							var from *ssa.BasicBlock
+							simple := true
+							for i, e := range ph.Edges {
+								if cst, ok := e.(*ssa.Const); ok && cst.Value != nil && cst.Value.String() == "false" {
+									continue
+								}
+								if only != nil {
+									simple = false
+								}
+								only, from = e, b.Preds[i]
+							}
+							if simple && only != nil && endState[from] != 0 {
+								condV = only
+								andBase = endState[from]
+							}
+						}
+						t = classify(condV)
 						// progress guard `p.currentPos == saved`: on the equal side the cursor is where it was when
 						// saved was loaded, so what was known about the token then is known again
 						if bo, ok := iff.Cond.(*ssa.BinOp); ok && (bo.Op == token.EQL || bo.Op == token.NEQ) && isCursorLoad(bo.X) && isCursorLoad(bo.Y) && bo.X != bo.Y {
@@ -436,15 +462,19 @@ func c12SkipLoops(c *Ctx, p *core.Prog) {
 				pkTest, pkSucc := false, 0
 				if len(b.Instrs) > 0 {
 					if iff, ok := b.Instrs[len(b.Instrs)-1].(*ssa.If); ok {
-						pkTest, pkSucc = peekTest(iff.Cond)
+						_ = iff
+						pkTest, pkSucc = peekTest(condV)
 					}
 				}
 				for k, sc := range b.Succs {
 					out := st
-					if pkTest && k == pkSucc {
+					if andBase != 0 && k == 0 {
+						out = andBase
+					}
+					if pkTest && k == pkSucc && (andBase == 0 || k == 0) {
 						out &^= stNoPk
 					}
-					if t.isTest {
+					if t.isTest && (andBase == 0 || k == 0) {
 						for _, kk := range t.consts {
 							if kk == eof {
 								out &^= stNoEOF
